@@ -44,16 +44,16 @@ func H_C19_freeBitHigher(k int) {
 		return
 	}
 	b := id.Higher>>uint(k)&1 == 1
-	vReach("bit-can-be-1", b)
-	vReach("bit-can-be-0", !b)
+	vMust("bit-can-be-1", b) // required of every single bit (per run), not just of some bit
+	vMust("bit-can-be-0", !b)
 }
 
 //verif:harness C19 quick k=0..61
 func H_C19_freeBitLower(k int) {
 	id := draw()
 	b := id.Lower>>uint(k)&1 == 1
-	vReach("bit-can-be-1", b)
-	vReach("bit-can-be-0", !b)
+	vMust("bit-can-be-1", b) // required of every single bit (per run), not just of some bit
+	vMust("bit-can-be-0", !b)
 }
 
 // neighbouring free bits are not tied together: all four combinations occur
@@ -72,8 +72,8 @@ func HT_C19_adjacentBits(k int) {
 		return
 	}
 	x, y := bit(k), bit(k+1)
-	vReach("00", !x && !y)
-	vReach("01", !x && y)
-	vReach("10", x && !y)
-	vReach("11", x && y)
+	vMust("00", !x && !y)
+	vMust("01", !x && y)
+	vMust("10", x && !y)
+	vMust("11", x && y)
 }
